@@ -16,5 +16,3 @@ def run(ctx):
     sc, sites, st, tst = safety.run(ctx, F, scopes.C13_ENTRIES)
     ctx.floor("R-INV", "C13 scope bodies", len(sc), 250)
     ctx.floor("R-INV", "C13 panic-capable sites", st["sites"], 120)
-    if ctx.tier == "thorough":
-        safety.run(ctx, ctx.facts("nodefault"), scopes.C13_ENTRIES)
